@@ -26,6 +26,14 @@ def make_scratch(repo: Path) -> Path:
     return d
 
 
+def apply_patch(root: Path, patch: Path):
+    import subprocess
+
+    r = subprocess.run(["git", "apply", "--unsafe-paths", str(patch)], cwd=root, capture_output=True, text=True)
+    if r.returncode != 0:
+        raise RuntimeError(f"seed patch does not apply: {patch}: {r.stderr.strip()[:120]}")
+
+
 def apply_edit(root: Path, rel: str, old: str, new: str):
     p = root / rel
     s = p.read_text()
@@ -40,8 +48,10 @@ def _one(args):
     root = None
     try:
         root = make_scratch(Path(repo))
-        for ed in entry["edits"]:
+        for ed in entry.get("edits", []):
             apply_edit(root, ed["file"], ed["old"], ed["new"])
+        if entry.get("patch"):
+            apply_patch(root, Path(entry["patch"]))
         buf = io.StringIO()
         with contextlib.redirect_stdout(buf):
             from sa import main as _m  # noqa
@@ -60,11 +70,27 @@ def _one(args):
 
 
 def catalogue(prop: str):
+    """mutants (hand-written + confirmed seeded changes of this property) and twins (all of them)"""
+    out = []
     try:
         mod = importlib.import_module(f"selftest.{prop.lower()}")
+        out += list(mod.CATALOGUE)
     except ModuleNotFoundError:
-        return []
-    return list(mod.CATALOGUE)
+        pass
+    from selftest.mutants import MUTANTS
+    from selftest.twins import TWINS
+
+    for p, name, rule, file, old, new in MUTANTS:
+        if p == prop:
+            out.append({"name": f"M:{name}", "kind": "M", "rule": rule, "edits": [{"file": file, "old": old, "new": new}]})
+    seeded = Path(__file__).resolve().parent.parent / "seeded"
+    for d in sorted(seeded.glob(f"{prop}-*")):
+        if (d / "patch.diff").is_file():
+            out.append({"name": f"S:{d.name}", "kind": "M", "rule": None, "patch": str(d / "patch.diff")})
+    for name, file, old, new, props in TWINS:
+        if props is None or prop in props:
+            out.append({"name": f"T:{name}", "kind": "T", "edits": [{"file": file, "old": old, "new": new}]})
+    return out
 
 
 def run(prop: str, seed: int = 0, quiet: bool = False, repo: str = "/repo", jobs: int = 16):
